@@ -5,6 +5,7 @@ package harness
 // net_case (theories/Harness/Net.v).
 
 import (
+	"encoding/json"
 	ics23 "github.com/cosmos/ics23/go"
 	"context"
 	"crypto/sha256"
@@ -538,7 +539,8 @@ func (h *NetH) SetRules(i int, rules []string) bool {
 	err := ci.App.TIBCKeeper.RoutingKeeper.SetRoutingRules(ctx, rules)
 	if err == nil {
 		write()
-		callDirect(ci, "setrules", map[string][]byte{"rules": []byte(strings.Join(rules, "\n"))})
+		rb, _ := json.Marshal(rules) // keeps nil and the empty list apart (stored as "null" and "[]")
+		callDirect(ci, "setrules", map[string][]byte{"rules": rb})
 	}
 	h.commit(i)
 	rs := make([]string, len(rules))
